@@ -42,6 +42,12 @@ ASSUMPTIONS = [
     "authors other than the committer are generated but not judged (the property statement does not mention them)",
     "rich mode: if the importer rejects the stream's 'property' lines (recorded as a failure) the same stream is re-imported with "
     "those lines removed so that the rest of the history is still judged",
+    "verdicts come from the end-to-end comparison only; two per-commit side checks (stream vs source tree under git-fast-import's "
+    "documented sequential semantics - 60-line model in _c44_stream.py; imported tree vs what the commands make of the imported parent) "
+    "only name the side a failing revision is attributed to (key prefix export:stream: / import:tree:), a tree difference is reported "
+    "at the revision where it starts (not at descendants that inherit it)",
+    "the importer runs in a forked server process under RLIMIT_CPU (12 CPU-seconds per stream, typical 0.1-0.5): non-termination is "
+    "decided by CPU time consumed, not by wall clock; faulthandler supplies the innermost Python frame",
 ]
 
 WEIGHTS = {"mkfile": 6, "mkdir": 3, "symlink": 2, "add": 9, "edit": 8, "chmod": 3, "rename": 7,
@@ -270,7 +276,7 @@ def _serve(rfd, wfd):
                     captured = io.StringIO()
                     marks = _import_here(job["dest"], data, captured)
                     out = {"ok": True, "marks": {k.decode("latin-1"): v.decode("latin-1") for k, v in marks.items()}}
-                except BaseException as e:  # noqa: B036 - reported to the parent, which classifies it
+                except BaseException as e:  # reported to the parent, which classifies it
                     out = {"ok": False, "type": type(e).__name__, "where": _where(e), "text": repr(e)[:400],
                            "tb": traceback.format_exc()[-2500:], "stdout": captured.getvalue()[-2000:]}
                 resource.setrlimit(resource.RLIMIT_CPU, (hard, hard))
@@ -447,19 +453,34 @@ def _cls_of(d, p):
 
 def _export_family(plain, d, cls, sym, p):
     """Closed key space for the known exporter mechanisms; anything else keeps its detailed (class, symptom) key."""
-    fl = d.flags_new(p) if p in d.new_at else d.flags_old(p)
+    fid = d.new_at.get(p, d.old_at.get(p))
+    fl = d.flags.get(fid, set())
     below = "under-renamed-dir" in fl or cls.startswith("carried") or "moved with its renamed parent" in cls
     dir_renamed = any(c.startswith("renamed") and c.endswith(":directory") for c in d.classes)
     if plain and dir_renamed and (below or (cls.startswith("renamed") and "directory" in cls)):
         return "plain:directory-rename-not-emitted"
     if below:
         return "change-below-renamed-directory:old-path-used-after-the-rename"
+    if fl & {"path-reused", "old-path-reused"}:
+        return "path-reused-within-one-commit:commands-in-wrong-order"
+    # the failing path itself explains nothing: does the commit contain one of the known-bad shapes at all?
+    shapes = []
+    if plain and dir_renamed:
+        shapes.append("plain:directory-rename-not-emitted")
+    if any("under-renamed-dir" in f for i, f in d.flags.items() if not d.cls[i].startswith("carried")):
+        shapes.append("change-below-renamed-directory")
+    if any(f & {"path-reused", "old-path-reused"} for f in d.flags.values()):
+        shapes.append("path-reused-within-one-commit")
+    if shapes:
+        return "other-problem-in-commit-with:%s:%s" % (shapes[0], sym)
     return "%s:%s" % (cls, sym)
 
 
-def _import_family(role, sym):
+def _import_family(role, sym, roles):
     if "R-dst" in role.split("+") and sym == "missing":
         return "rename-destination-lost"
+    if any("R-src" in v for v in roles.values()):
+        return "other-problem-in-commit-with-renames:%s" % sym
     return "%s:%s" % (role, sym)
 
 
@@ -576,10 +597,15 @@ def _roundtrip(ctx, rng, h, bname, plain, rewrite_tags):
         m = re.search(r"processing commit b':(\d+)'", getattr(e, "stdout", "") or "")
         if m:
             failing = m.group(1).encode()
+        earlier = [m_ for m_, _f, _mg, _fc, _c in commits if m_ in e_problem and failing is not None and int(m_) < int(failing)]
         if failing in e_problem:
             key, msg, det = e_problem[failing]
             ctx.fail(key, "%s; the importer then raised %s@%s on that commit" % (msg, e.typename, e.where),
                      dict(detail, importer_error=e.text[:600], **det))
+        elif earlier:
+            key, msg, det = e_problem[earlier[0]]
+            ctx.fail(key + ":late-effect", "%s; the importer carried on and raised %s@%s at the later commit %s"
+                     % (msg, e.typename, e.where, failing), dict(detail, importer_error=e.text[:600], **det))
         else:
             kinds = sorted({x for v in roles_by_mark.get(failing, {}).values() for x in v})
             ctx.fail("import:raised:%s@%s" % (e.typename, e.where), "%scommit %s (commands: %s): %s" % (what, failing, kinds, e.text[:1200]),
@@ -590,7 +616,7 @@ def _roundtrip(ctx, rng, h, bname, plain, rewrite_tags):
     try:
         dest, marks = _import(ctx, data)
     except _ImportDidNotTerminate as e:
-        ctx.fail("import:non-termination@%s" % e.where,
+        ctx.fail("import:non-termination",
                  "the importer did not finish the exporter's stream within %d CPU-seconds (typical: < 1); innermost breezy frame %s"
                  % (CPU_LIMIT_S, e.where), dict(detail, trace=e.trace, stream_tail=data[-1500:].decode("latin-1")))
         ctx.note(("import-hang", mode), nontrivial=False)
@@ -605,7 +631,7 @@ def _roundtrip(ctx, rng, h, bname, plain, rewrite_tags):
                 stripped = True
                 ctx.hist("rich: re-imported without property lines")
             except _ImportDidNotTerminate as e2:
-                ctx.fail("import:non-termination@%s" % e2.where, "after removing property lines: no termination within the CPU budget",
+                ctx.fail("import:non-termination", "after removing property lines: no termination within the CPU budget (innermost breezy frame %s)" % e2.where,
                          dict(detail, trace=e2.trace, stream_tail=data2[-1500:].decode("latin-1")))
                 ctx.note(("import-hang", mode), nontrivial=False)
                 return
@@ -673,7 +699,7 @@ def _roundtrip(ctx, rng, h, bname, plain, rewrite_tags):
             if diffs:
                 sym, p = diffs[0]
                 role = _role_of(roles_by_mark.get(mark, {}), p)
-                i_problem[mark] = ("import:tree:%s" % _import_family(role, sym),
+                i_problem[mark] = ("import:tree:%s" % _import_family(role, sym, roles_by_mark.get(mark, {})),
                                    "commit %s: imported tree has path(s) %r %s w.r.t. what the commit's file commands describe (role of the "
                                    "path in the commands: %s)" % (mark.decode(), [x[1] for x in diffs[:4]], sym, role),
                                    {"mark": mark.decode(), "commands": cmds_by_mark.get(mark), "import_diffs": diffs[:8]})
@@ -754,7 +780,12 @@ def _roundtrip(ctx, rng, h, bname, plain, rewrite_tags):
                 ctx.fail(key, base_msg + "; exporter side: " + msg + " (the importer does not follow the commands literally either: %s)"
                          % i_problem[mark][0], dict(det, **d2))
             else:
-                ctx.fail("tree:%s:%s" % (cls, sym), base_msg + "; stream and import each look consistent for this commit", det)
+                earlier = [m_ for m_, _f, _mg, _fc, _c in commits if m_ in e_problem and int(m_) < int(mark)]
+                if earlier:
+                    key, msg, d2 = e_problem[earlier[0]]
+                    ctx.fail(key + ":late-effect", base_msg + "; this commit's commands look right, an earlier one does not: " + msg, dict(det, **d2))
+                else:
+                    ctx.fail("tree:%s:%s" % (cls, sym), base_msg + "; stream and import each look consistent for this commit", det)
         # ---- tags
         new_tags = dict(nb.tags.get_tag_dict())
         for t, r in sorted(src_tags.items()):
